@@ -753,6 +753,11 @@ var c11AssignedProgs = []struct {
 	{`BEGIN { NR = 10; FNR = "20" } { print NR, FNR } END { print NR, FNR }`, []string{"A", "B"}},
 	{`{ r = (getline v); print r, v, NR, FNR }`, []string{"A", "NR=50", "B"}},
 	{`NR == 2 { NR = "x"; FNR = "" } { print NR, FNR }`, []string{"A", "B"}},
+	// next / nextfile executed by a function that a pattern calls
+	{`function f() { if (FNR == 2) next; return 1 } f() { print FILENAME, FNR, NR, $0 } END { print NR }`, []string{"A", "B"}},
+	{`function f() { if (FNR == 2) nextfile; return 1 } f() { print FILENAME, FNR, NR, $0 } { print "x" } END { print NR, FILENAME }`, []string{"A", "B", "A"}},
+	{`function f(n) { if (NR == n) next; return NR == 1 } f(2), f(3) { print "r", NR } { print "x", NR, $0 }`, []string{"A", "B"}},
+	{`function g() { if (FNR == 1) nextfile; return 0 } { print "a", FILENAME, FNR } FNR == 2, g() { print "r", FILENAME, FNR }`, []string{"A", "B"}},
 }
 
 func c11Assigned(c *core.Ctx, st *c11State) {
